@@ -40,12 +40,12 @@
 (***************************************************************************)
 EXTENDS Integers, Sequences, FiniteSets, TLC, SessionCacheSeq
 
-CONSTANTS Gor,        \* goroutines (model values)
+CONSTANTS Gor,        \* goroutines (strings "g1", "g2", ...)
           Nobody,     \* model value: lock not held
           Ids,        \* session ids (strings)
           MaxOps,     \* operations per goroutine
           MaxVer,     \* Store may create objects <<id,1>> .. <<id,MaxVer>>
-          OpKinds,    \* operations a goroutine may choose
+          OpsOf,      \* [Gor -> set of operations the goroutine may choose] (cfg: OpsOf <- Roles...)
           InitKinds,  \* initial state of each id: subset of {"absent","live","dead"}
           StoreExp,   \* expiry class of stored entries: subset of {"live","dead"}
           Bug
@@ -127,7 +127,7 @@ EntryLocked(op) ==
 (* Begin: call + first lock acquisition (blocks until the lock is free) *)
 Begin(g) ==
   /\ th[g].pc = "idle" /\ th[g].n < MaxOps
-  /\ \E op \in OpKinds :
+  /\ \E op \in OpsOf[g] :
        /\ \E i \in (IF op \in CacheOpsId THEN Ids ELSE {"-"}),
              o \in (IF op \in EntryOps THEN Published ELSE {NoObj}) :
             /\ op = "Store" => nextVer[i] <= MaxVer
@@ -327,7 +327,18 @@ Step(g) == \/ Begin(g) \/ WMap(g) \/ RMap(g) \/ AcqE(g) \/ RExp1(g) \/ RExp2(g)
 Next == \E g \in Gor : Step(g)
 Spec == Init /\ [][Next]_vars
 
-Symm == Permutations(Gor)
+(* role assignments used by the configurations (substituted for OpsOf) *)
+AllOps == CacheOpsId \cup CacheOpsAll \cup EntryOps
+RolesAll  == [g \in Gor |-> AllOps]
+RolesCore == [g \in Gor |-> {"Store", "Lookup", "Invalidate", "Sweep", "Dump", "Renew"}]
+\* quick: a writer of the map, a user of entries, a maintenance goroutine
+RolesQuick == [g \in Gor |-> CASE g = "g1" -> {"Store", "Invalidate", "Sweep"}
+                               [] g = "g2" -> {"Renew", "Lookup", "LookupNE"}
+                               [] OTHER    -> {"Dump", "Sweep", "Renew", "Size"}]
+\* thorough, second configuration: command mappings and the remaining methods
+RolesCmd == [g \in Gor |-> CASE g = "g1" -> {"MapCmd", "Invalidate", "Clear", "Store"}
+                             [] g = "g2" -> {"LookupCmd", "LookupNE", "IsExpired", "Renew"}
+                             [] OTHER    -> {"Sweep", "LookupCmd", "Size", "Dump"}]
 
 -----------------------------------------------------------------------------
 (* the field-access relation: the access a goroutine is about to perform *)
